@@ -99,7 +99,7 @@ def judge_prog(prog, res):
         return ("rejected", "generated program was rejected: %s" % comp.get("errors", "")[:300])
     try:
         ref = progen.interpret(prog)
-    except (progen.Unsupported, RecursionError):
+    except (progen.Unsupported, progen.TooBig, RecursionError):
         return None
     for run in res["runs"]:
         v = proglib.compare(ref, prog["final_ty"], run)
